@@ -696,7 +696,8 @@ func init() {
 			{ID: "C10-commit", Floor: 17, Run: c10Commit, Text: "[LAYOUT]+[LIST] byte layout of Hash / PPHashToSign / FEPHashToSign; per-exit lists: one element per exit, whole range, in order, own storage"},
 			{ID: "C10-alias", Floor: 4, Run: c10Alias, Text: "[LIST] repository-wide: no []byte list element shares a loop-carried buffer"},
 			{ID: "C10-cover", Floor: 5, Run: c10Cover, Text: "computed commitment read set ⊆ wire ∩ JSON"},
-			{ID: "C10-wire", Floor: 40, Run: c10Wire, Text: "[FIELDMAP] proto conversion field by field"},
+			{ID: "C10-wire", Floor: 40, Run: func(c *core.Ctx) { c10Wire(c); c10WireUnconditional(c) }, Text: "[FIELDMAP] proto conversion field by field"},
+			{ID: "C10-selector", Floor: 4, Run: c10Selector, Text: "tagged-union decoders choose the variant by key presence, with a key only that variant's encoder writes"},
 			{ID: "C10-json", Floor: 35, Run: c10JSON, Text: "codec key sets and per-field assignment"},
 			{ID: "C10-hashfields", Floor: 9, Run: c10HashFields, Text: "every Hash() covers its struct's fields except the reasoned table"},
 		},
@@ -829,5 +830,253 @@ func c10Alias(c *core.Ctx) {
 	}
 	if n == 0 {
 		c.Undecide(rule, "repository#list-element-writes", 0, "no list-element writes found: the scan is broken")
+	}
+}
+
+// topLevelJSONKeys: the json keys of the anonymous struct a MarshalJSON method serialises.
+func topLevelJSONKeys(fn *ssa.Function) map[string]bool {
+	out := map[string]bool{}
+	core.Instrs(fn, func(i ssa.Instruction) {
+		al, ok := i.(*ssa.Alloc)
+		if !ok {
+			return
+		}
+		st := structOf(al.Type())
+		if st == nil {
+			return
+		}
+		if _, named := deref(al.Type()).(*types.Named); named {
+			return
+		}
+		for k := 0; k < st.NumFields(); k++ {
+			tag := reflectTag(st.Tag(k), "json")
+			if tag != "" && tag != "-" {
+				out[strings.Split(tag, ",")[0]] = true
+			}
+		}
+	})
+	return out
+}
+
+func deref(t types.Type) types.Type {
+	if p, ok := t.Underlying().(*types.Pointer); ok {
+		return p.Elem()
+	}
+	return t
+}
+
+func reflectTag(tag, key string) string {
+	for tag != "" {
+		i := 0
+		for i < len(tag) && tag[i] == ' ' {
+			i++
+		}
+		tag = tag[i:]
+		i = 0
+		for i < len(tag) && tag[i] > ' ' && tag[i] != ':' && tag[i] != '"' {
+			i++
+		}
+		if i == 0 || i+1 >= len(tag) || tag[i] != ':' || tag[i+1] != '"' {
+			break
+		}
+		name := tag[:i]
+		tag = tag[i+1:]
+		i = 1
+		for i < len(tag) && tag[i] != '"' {
+			if tag[i] == '\\' {
+				i++
+			}
+			i++
+		}
+		if i >= len(tag) {
+			break
+		}
+		val := tag[1:i]
+		tag = tag[i+1:]
+		if name == key {
+			return val
+		}
+	}
+	return ""
+}
+
+// c10Selector: the two tagged-union decoders pick the variant by the PRESENCE of a key that only that variant's
+// encoder writes — never by a value — so that what was stored is read back as the same variant whatever its content.
+func c10Selector(c *core.Ctx) {
+	const rule = "C10-selector"
+	for _, w := range []struct {
+		sel      string
+		variants [][2]string // type, discriminating key
+	}{
+		{"AggchainDataSelector", [][2]string{{"AggchainDataProof", "proof"}, {"AggchainDataSignature", "signature"}}},
+		{"ClaimSelector", [][2]string{{"ClaimFromMainnnet", "Mainnet"}, {"ClaimFromRollup", "Rollup"}}},
+	} {
+		fn := c.MustFn(rule, "agglayer/types", w.sel, "UnmarshalJSON")
+		if fn == nil {
+			continue
+		}
+		keys := map[string]map[string]bool{}
+		for _, v := range w.variants {
+			if m := c.MustFn(rule, "agglayer/types", v[0], "MarshalJSON"); m != nil {
+				keys[v[0]] = topLevelJSONKeys(m)
+			}
+		}
+		// presence edges: the comma-ok result of a lookup with a constant key in the decoded map
+		present := func(key string, want bool) []core.IfEdge {
+			return core.IfEdgesWhere(fn, func(v ssa.Value) bool {
+				ex, ok := v.(*ssa.Extract)
+				if !ok || ex.Index != 1 {
+					return false
+				}
+				lk, ok := ex.Tuple.(*ssa.Lookup)
+				if !ok || !lk.CommaOk {
+					return false
+				}
+				k, ok := core.ConstString(lk.Index)
+				return ok && k == key
+			}, want)
+		}
+		var earlier []core.IfEdge // "none of the earlier keys is present"
+		for idx, v := range w.variants {
+			label := fmt.Sprintf("agglayer/types.(*%s).UnmarshalJSON#%s", w.sel, v[0])
+			on := present(v[1], true)
+			// the key is written by this variant's encoder, and — for every variant tested BEFORE it — not by a later one
+			okKeys := keys[v[0]][v[1]]
+			for j := idx + 1; j < len(w.variants); j++ {
+				if keys[w.variants[j][0]][v[1]] {
+					okKeys = false // a later variant also writes this key: testing it first would capture that variant
+				}
+			}
+			var allocs []ssa.Instruction
+			core.Instrs(fn, func(i ssa.Instruction) {
+				if al, ok := i.(*ssa.Alloc); ok && al.Heap {
+					if n, isN := deref(al.Type()).(*types.Named); isN && n.Obj().Name() == v[0] {
+						allocs = append(allocs, al)
+					}
+				}
+			})
+			ok := okKeys && len(on) > 0 && len(allocs) == 1
+			if ok {
+				target := func(x ssa.Instruction) bool { return x == allocs[0] }
+				ok = core.ReachableWithout(core.Entry(fn), on, target) == nil
+				for _, e := range earlier {
+					_ = e
+				}
+				if len(earlier) > 0 {
+					ok = ok && core.ReachableWithout(core.Entry(fn), earlier, target) == nil
+				}
+				// and presence is sufficient: from the presence edge nothing but this variant is built
+				for _, e := range on {
+					start, env := core.AfterEdge(e)
+					if f := (&core.Walk{Stop: target, Target: func(x ssa.Instruction) bool {
+						if _, isRet := x.(*ssa.Return); isRet {
+							return true
+						}
+						al, isAl := x.(*ssa.Alloc)
+						return isAl && al.Heap && ssa.Instruction(al) != allocs[0] && structOf(al.Type()) != nil
+					}}).From(start, env); f != nil {
+						ok = false
+					}
+				}
+			}
+			c.Decide(ok, rule, label, fn.Pos(), fmt.Sprintf("variant %s is chosen exactly when key %q is present (a key its encoder always writes: %v), not by any value", v[0], v[1], keys[v[0]][v[1]]))
+			earlier = present(v[1], false)
+		}
+	}
+}
+
+// c10WireUnconditional: every field of a protobuf message built by the conversion is set before the message is handed
+// on, on every path: a field filled only under a condition on the certificate's content (e.g. "height > 0") leaves a
+// covered field out of the wire message for the inputs that fail the condition.
+func c10WireUnconditional(c *core.Ctx) {
+	const rule = "C10-wire"
+	for _, name := range []string{"(*AgglayerGRPCClient).SendCertificate", "convertToProtoBridgeExit", "convertToProtoImportedBridgeExit", "convertAggchainData"} {
+		recv, fnName := "", name
+		if strings.HasPrefix(name, "(*") {
+			recv, fnName = "AgglayerGRPCClient", "SendCertificate"
+		}
+		fn := c.MustFn(rule, "agglayer/grpc", recv, fnName)
+		if fn == nil {
+			continue
+		}
+		var bad []string
+		n := 0
+		core.Instrs(fn, func(i ssa.Instruction) {
+			al, ok := i.(*ssa.Alloc)
+			if !ok || !al.Heap || structOf(al.Type()) == nil {
+				return
+			}
+			nt, isN := deref(al.Type()).(*types.Named)
+			if !isN || nt.Obj().Pkg() == nil || !strings.Contains(nt.Obj().Pkg().Path(), "protocolbuffers") {
+				return
+			}
+			var uses []ssa.Instruction
+			var stores []*ssa.Store
+			for _, r := range *al.Referrers() {
+				switch x := r.(type) {
+				case *ssa.FieldAddr:
+					for _, r2 := range *x.Referrers() {
+						if st, isSt := r2.(*ssa.Store); isSt && st.Addr == ssa.Value(x) {
+							stores = append(stores, st)
+						}
+					}
+				case *ssa.DebugRef:
+				default:
+					uses = append(uses, r)
+				}
+			}
+			byField := map[string][]*ssa.Store{}
+			for _, st := range stores {
+				n++
+				f := fieldNameOf(st.Addr.(*ssa.FieldAddr))
+				byField[f] = append(byField[f], st)
+			}
+			sx := core.NewSymx()
+			for f, sts := range byField {
+				isStore := func(x ssa.Instruction) bool {
+					for _, st := range sts {
+						if x == ssa.Instruction(st) {
+							return true
+						}
+					}
+					return false
+				}
+				for _, u := range uses {
+					u := u
+					target := func(x ssa.Instruction) bool { return x == u }
+					if (&core.Walk{Stop: isStore, Target: target}).From(core.After(al), nil) == nil {
+						continue // every path to the use sets the field
+					}
+					// accepted: the field is left unset only when the very source it forwards is absent (nil / empty)
+					var absent []core.IfEdge
+					for _, st := range sts {
+						val := sx.Of(st.Val).String()
+						absent = append(absent, core.TermEdges(fn, sx, func(s string, _ *core.Term) bool {
+							for _, pre := range []string{"(", "(len("} {
+								if strings.HasPrefix(s, pre) {
+									x := strings.TrimPrefix(s, pre)
+									var src string
+									switch {
+									case pre == "(" && strings.HasSuffix(x, " != const(nil))"):
+										src = strings.TrimSuffix(x, " != const(nil))")
+									case pre == "(len(" && strings.HasSuffix(x, ") > const(0))"):
+										src = strings.TrimSuffix(x, ") > const(0))")
+									}
+									if src != "" && strings.Contains(val, src) {
+										return true
+									}
+								}
+							}
+							return false
+						}, false)...)
+					}
+					if len(absent) == 0 || (&core.Walk{Stop: isStore, EdgeOK: core.Forbid(absent), Target: target}).From(core.After(al), nil) != nil {
+						bad = append(bad, nt.Obj().Name()+"."+f)
+					}
+				}
+			}
+		})
+		sort.Strings(bad)
+		c.Decide(len(bad) == 0 && n > 0, rule, "grpc."+fnName+"#fields-set-on-every-path", fn.Pos(), fmt.Sprintf("%d field stores into protobuf messages, all before the message is used, on every path (conditional: %v)", n, bad))
 	}
 }
